@@ -81,7 +81,13 @@ ATOMS = {
     'Emaxofd':  (+1, 'ExpPiecewise', lambda x: max(x[0], 2 * x[1] - 1, 0.25 - 0.5 * x[0]), 'all', True, True, 'd'),
     'Eminofd':  (-1, 'ExpPiecewise', lambda x: min(x[0], 2 * x[1] - 1, 0.25 - 0.5 * x[0]), 'all', True, True, 'd'),
 }
-ATOM_NAMES = list(ATOMS)
+# the same worst-case expectations with (part of) the chain applied INSIDE the expectation: the operations act on
+# the piecewise expression, then E(.) is taken.  '@in': whole chain inside;  '@1': first symbol inside, rest outside
+for _a in ('Emaxof', 'Eminof'):
+    for _m in ('in', '1'):
+        ATOMS['%s@%s' % (_a, _m)] = ATOMS[_a]
+INSIDE_ATOMS = ['Emaxof@in', 'Eminof@in', 'Emaxof@1', 'Eminof@1']
+ATOM_NAMES = [a for a in ATOMS if '@' not in a]
 def atoms_of(fe):
     c = 'r' if fe == 'ro' else 'd'
     return [a for a in ATOM_NAMES if c in ATOMS[a][6]]
